@@ -161,6 +161,13 @@ def plan_C02(tier, seed):
         jobs.append(closed("EMA_n%d" % n, "EMA", n, salpha=A5, maxdepth=(6 if q else 8), invariants=inv))
     jobs.append(closed("TR_s", "TR", 1, salpha=A5, maxdepth=5, invariants=inv))
     jobs.append(closed("TR_b", "TR", 1, balpha=bars, maxdepth=(4 if q else 5), invariants=inv))
+    for kind in ("EMA", "ATR", "MACD", "KC", "CE"):
+        # t counts inputs since construction or reset: a reused instance (reset, then fresh values) from every state of a short model
+        n = 3
+        sa2, ba2 = (set(), bars[:4]) if kind == "CE" else ({1, 3}, [])
+        conts = [[{"op": "reset", "i": 1}] + continuations(kind, n)[k] for k in (0, 2)]
+        jobs.append(Job("%s_reuse_n3" % kind, {1: kcfg(kind, n, alt=1)}, salpha=sa2, balpha=ba2, conts=conts, maxdepth=4 + 7, noovf=False, invariants=inv,
+                        extra_defs="FreeDepth == FreeDepthOf(4)", extra_cfg="CONSTRAINT FreeDepth"))
     for n in (1, 2, 3, 5):
         jobs.append(closed("ATR_b_n%d" % n, "ATR", n, balpha=bars, maxdepth=(4 if q else 6), invariants=inv))
         jobs.append(closed("ATR_s_n%d" % n, "ATR", n, salpha=A5, maxdepth=(5 if q else 7), invariants=inv))
@@ -276,6 +283,9 @@ def plan_C03(tier, seed):
                 ops = [b_op(1, b) for b in rand_bars(rng, length)]
             else:
                 ops = [s_op(1, x) for x in stream_patterns(rng, length, 1, 30, lively=(rep % 2 == 0))]
+            if rep % 2 == 1:       # "since construction / reset": the same instance reused after reset()
+                for _ in range(2):
+                    ops.insert(rng.randrange(len(ops)), {"op": "reset", "i": 1})
             jobs.append(scripted("%s_big%d_n%d" % (kind, rep, n), {1: c}, [new_op(1)] + ops, noovf=False, invariants=inv))
         n = rng.choice([1, 2, 3, 4, 5, 7])
         length = 9000 if q else 30000
@@ -365,6 +375,18 @@ def plan_C04(tier, seed):
             jobs.append(Job("%s_n%d" % (kind, n), {1: c}, salpha=sa, balpha=ba, toks=toks, resets={1},
                             conts=conts, maxdepth=depth + n + 3, noovf=False, invariants=inv,
                             extra_defs="FreeDepth == FreeDepthOf(%d)" % depth, extra_cfg="CONSTRAINT FreeDepth"))
+    for kind in ("TR", "ATR", "FAST_STOCH", "SLOW_STOCH", "KC", "SMA", "RSI", "BB"):
+        # the same kinds driven ONLY through Next<&T> before and after reset (state that one of the two paths maintains)
+        n = 2
+        bars5 = hlc_bars()[:5]
+        cont = [{"op": "reset", "i": 1}] + [b_op(1, bar(x + 2, x, x + 1, v=1)) for x in (5, 7, 6, 9)]
+        jobs.append(Job("%s_barpath_n2" % kind, {1: kcfg(kind, n, alt=1)}, balpha=bars5, toks={"NaN"}, resets={1}, conts=[cont], maxdepth=5 + 6,
+                        noovf=False, invariants=inv, extra_defs="FreeDepth == FreeDepthOf(5)", extra_cfg="CONSTRAINT FreeDepth"))
+    for kind in ("OBV", "MFI"):
+        bars = [bar(2, 1, 2, v=BIG), bar(3, 2, 2, v=1), bar(2, 2, 2, v=2), bar(3, 1, 3, v=0)]
+        cont = [{"op": "reset", "i": 1}] + [b_op(1, bar(x + 1, x, x + 1, v=1 + x % 2)) for x in (5, 7, 6, 9)]
+        jobs.append(Job("%s_bigvol" % kind, {1: kcfg(kind, 2, alt=1)}, balpha=bars, resets={1}, conts=[cont], maxdepth=5 + 6,
+                        noovf=False, invariants=inv, extra_defs="FreeDepth == FreeDepthOf(5)", extra_cfg="CONSTRAINT FreeDepth"))
     if q:
         # period 3 (a ring that wraps with room for stale slots) on a two-letter alphabet, one continuation
         for kind in ALL22:
@@ -458,6 +480,18 @@ def plan_C05(tier, seed):
             jobs.append(Job("%s_cl_n%d" % (kind, n), {1: a, 2: a, 3: b}, initial={1, 3}, salpha=sa, balpha=(ba[:5] if ba and n >= 3 else ba), conts=conts,
                             maxdepth=depth + 3 * n + 12, noovf=False, invariants=inv, extra_defs="FreeDepth == FreeDepthOf(%d)" % (depth + 1),
                             extra_cfg="CONSTRAINT FreeDepth", threads=16, free_ids={1}))
+    for kind in ALL22:
+        # twins: two separately constructed instances (and a clone taken midway) with a longer window, fed the same stream
+        n = rng.choice([5, 8, 20])
+        a = kcfg(kind, n, alt=rng.randint(0, 4))
+        L = 150 if q else 800
+        ops = [new_op(1), new_op(2)]
+        vals = to_ops(kind, 1, [rng.randint(20, 200) for _ in range(L)], style=rng.randint(0, 1) if kind not in BAR_ONLY else 0)
+        for k, o in enumerate(vals):
+            ops += [o, dict(o, i=2)] + ([dict(o, i=3)] if k >= L // 3 else [])
+            if k == L // 3 - 1:
+                ops.append({"op": "clone", "i": 1, "j": 3})
+        jobs.append(scripted("%s_twins_n%d" % (kind, n), {1: a, 2: a, 3: a}, ops, noovf=False, invariants=inv))
     return {
         "min_by_kind": {"kinds": ALL22, "relational": 300}, "jobs": jobs, "parallel": 12,
         "rule": "per kind: (a) every interleaving (depth-bounded, no state merging) of feeds to an original, its clone taken at any point, an unrelated "
@@ -701,6 +735,8 @@ def plan_C08(tier, seed):
             if kind in ("MFI", "OBV"):
                 conts.append(flat_tail(kind, 2, L, zero_volume=True))
             conts.append([{"op": "reset", "i": 1}] + flat_tail(kind, 3, L))       # flat from the very start of a reused instance
+            if kind in HLC_KINDS and kind not in BAR_ONLY:                        # the same through Next<&T>: one-price bars
+                conts.append([b_op(1, bar(2, 2, 2, v=1)) for _ in range(L)])
             unb = kind in UNBOUNDED
             depth = (n + 2 if q else n + 3) if unb or (kind in BAR_ONLY and n >= 2) else 10**6
             jobs.append(Job("%s_n%d" % (kind, n), {1: a}, salpha=sa, balpha=ba, conts=conts, maxdepth=depth + n + 6, noovf=False, invariants=inv,
@@ -952,7 +988,7 @@ CHECK_DEADLOCK FALSE
     }
 
 
-def stream_job(name, kind, c, segs, samples, prop="C13"):
+def stream_job(name, kind, c, segs, samples, prop="C13", reset_at=0):
     """segs: [(pattern ops, reps)], ops as {"op":"s","x":k} / {"op":"b",...}; builds the Streams.tla model + the harness schedule"""
     def rec(o):
         if o["op"] == "s":
@@ -967,13 +1003,15 @@ mcSched == %s
 mcKind == "%s"
 mcP == %s
 mcSamples == %s
+mcResetAt == %d
 ====
-""" % (name, sched_tla, kind, tla(p), tla(set(samples)))
+""" % (name, sched_tla, kind, tla(p), tla(set(samples)), reset_at)
     cfgt = """CONSTANTS
  Sched <- mcSched
  Kind <- mcKind
  P <- mcP
  Samples <- mcSamples
+ ResetAt <- mcResetAt
 INIT Init
 NEXT Next
 INVARIANT EmitExpect
@@ -981,7 +1019,7 @@ CHECK_DEADLOCK FALSE
 """
     mem = c["n"] + 1 if kind in ("ROC", "ER", "MFI") else c["n"]
     sched = {"prop": prop, "kind": kind, "per": [c["n"], c["n2"], c["n3"]], "m": [c["m"].numerator, c["m"].denominator],
-             "seed": [c["seed"].numerator, c["seed"].denominator], "mem": mem,
+             "seed": [c["seed"].numerator, c["seed"].denominator], "mem": mem, "reset_at": reset_at,
              "sched": [{"pat": pat, "reps": reps, "ramp": ramp} for pat, reps, ramp in segs]}
     return RawJob(name, mod, cfgt, sched=sched)
 
@@ -1243,12 +1281,13 @@ def plan_C18(tier, seed):
             segs = shape_segments(kind, shape, n)
             tot = sum(len(p) * r for p, r, _ in segs)
             samples = {1, 2, tot, max(1, tot // 3)}
+            reset_at = (3 * n + 11) if (ki + si) % 2 == 0 else 0       # every other stream: a reset after some activity, then the long run
             if kind not in UNBOUNDED and kind not in ("TR",):
-                jobs.append(stream_job("%s_%s_n%d" % (kind, shape, n), kind, c, segs, samples, prop="C18"))
+                jobs.append(stream_job("%s_%s_n%d" % (kind, shape, n), kind, c, segs, samples, prop="C18", reset_at=reset_at))
             else:
                 # kinds without a window state: the stream model has no closed form for them; run the shape through the harness only,
                 # with the bound from the specification's SizeBound table (checked for these kinds by the short TaSystem models below)
-                jobs.append(stream_job("%s_%s_n%d" % (kind, shape, n), "SMA" if kind not in BAR_ONLY else "CCI", c, segs, samples, prop="C18"))
+                jobs.append(stream_job("%s_%s_n%d" % (kind, shape, n), "SMA" if kind not in BAR_ONLY else "CCI", c, segs, samples, prop="C18", reset_at=reset_at))
                 jobs[-1].sched["kind"] = kind
     # short runs with serialization after every step, all kinds, periods 1..512: size constant after the first input and under the bound
     for kind in ALL22:
@@ -1266,7 +1305,10 @@ def plan_C18(tier, seed):
                 ops.append(o)
                 if j in (0, 1, n, n + 1, len(body) - 1):
                     ops.append({"op": "save", "i": i, "s": 1})
-            ops += [{"op": "reset", "i": i}] + to_ops(kind, i, xs[:5]) + [{"op": "drop", "i": i}]
+            ops += [{"op": "reset", "i": i}] + to_ops(kind, i, xs[:5])
+            if k % 3 == 0:      # a non-finite value (for MFI / OBV also as volume), then more inputs: the state must not start to grow
+                ops += [{"op": "tok", "i": i, "x": ["PInf", "NaN", "FMax"][k % 3]}] + to_ops(kind, i, xs[:40] if len(xs) >= 40 else xs)
+            ops.append({"op": "drop", "i": i})
         jobs.append(scripted("%s_sizes" % kind, ids, ops, slots={1}, noovf=False, invariants=inv))
     return {
         "jobs": jobs, "parallel": 8,
